@@ -332,7 +332,14 @@ def run(ctx):
                 "kernels without data-dependent subscripts x buffer extents exactly as needed / larger / one short "
                 "on one axis / random x integer parameters 0..4: IndexError | normal return vs the prediction from "
                 "the generated site lists; every kernel call made under the public API is recorded with its "
-                "shapes and tested against the contract the in-bounds theorems assume; oracle "
+                "shapes and tested against the contract the in-bounds theorems assume; T2 also (round 5): "
+                "Surrogates.test_mutual_information (directly and through an instance) on IEEE data - +-inf / "
+                "NaN in either or both arrays, whole rows / arrays infinite, constant finite part - in both "
+                "float widths and layouts: verdict vs the wrapper model over IEEE values whose shape test, size "
+                "sources, range terms and scaling expression are the generated tables; the source's own "
+                "range_min / range_max / scaling expressions evaluated by NumPy vs the model's NaN-propagating "
+                "folds, exactly; every `call tmi` / `call pearson` request is answered by the hard-coded and by "
+                "the generated-table model, which must agree; oracle "
                 "stream: other dtypes, random / +-inf / NaN / overflowing / subnormal-range float data in "
                 "both widths, n_bins up to 4096, RecurrencePlot / VisibilityGraph entry points, histories on "
                 "one Surrogates / RecurrencePlot object with library-held arrays.  distinct = distinct "
@@ -827,7 +834,10 @@ def run(ctx):
     # T5: the nine wrappers of `_line_dist` at their own boundary (exact outcome)
     lreqs5, lmodel5 = line_dist_requests(ctx, rng, nprng, quick)
 
-    allreqs = areqs + kreqs + oreqs + preqs + lreqs5
+    # T6: `_nsi_betweenness` at its own boundary, and the public method with captured arguments
+    nreqs, nmodel, nvalid, npub = nsi_requests(ctx, rng, nprng, quick)
+
+    allreqs = areqs + kreqs + oreqs + preqs + lreqs5 + nreqs + npub
     nchunk = 4
     chunks = [allreqs[i::nchunk] for i in range(nchunk)]
     kcalls = []
@@ -846,7 +856,7 @@ def run(ctx):
             cls = "-"
             if q["id"].startswith("a"):
                 cls = ameta[int(q["id"][1:])][1]
-            elif q["id"].startswith("o") or q["id"].startswith("p") or q["id"].startswith("l"):
+            elif q["id"][0] in "oplnq":
                 cls = q.get("cls", "-")
                 if q["id"].startswith("p"):
                     cls = q["key"] + ":" + cls
@@ -914,6 +924,32 @@ def run(ctx):
                                           "histogram" if o.startswith("ok:") else o))
     ctx.correspond("_line_dist wrappers: IndexError / histogram == Lean subscript model (generated loop "
                    "skeleton and index functions)", lmodel5, limpl)
+
+    # T6
+    nimpl = []
+    for q, ok in zip(nreqs, nvalid):
+        r = ares[q["id"]]
+        o = r["outcome"]
+        nimpl.append(("valid|" if ok else "any|") +
+                     ("oob" if r["reports"] or o == "crash" else
+                      "raise" if o == "raise:IndexError" else o))
+        ctx.count("nsi-kernel-outcome:" + ("IndexError" if o == "raise:IndexError" else o))
+    ctx.correspond("_nsi_betweenness at its own boundary: contract (independent evaluation) and "
+                   "IndexError | returns == Lean index model of the breadth-first sweep", nmodel, nimpl)
+    cmodel, cimpl = [], []
+    for q in npub:
+        r = ares[q["id"]]
+        o = r["outcome"]
+        ctx.count("nsi-public-outcome:" + o.split(":")[0] +
+                  (":" + o.split(":")[1] if o.startswith("raise:") else ""))
+        if o.startswith("ok:") and o != "ok:-":
+            for call in o[3:].split(";"):
+                N_, k_, nbr_, wl_, sl_, t_ = call.split("|")
+                cmodel.append(f"nsiidx {N_} {k_} {nbr_} {wl_} {sl_} {t_}")
+                cimpl.append("valid|ok")
+    ctx.correspond("what Network.nsi_betweenness hands to the kernel (captured, contents included) "
+                   "satisfies the contract of nsiBetwIdx_ok, and the model runs through", cmodel, cimpl)
+    ctx.extra["nsi_kernel_calls_captured"] = len(cmodel)
 
     # kernel calls observed under the public API: do they satisfy the contracts the theorems assume?
     table = json.load(open(KTABLE)) if os.path.exists(KTABLE) else {}
@@ -998,6 +1034,121 @@ def pyx_kernel_requests(ctx, rng, quick):
 LD_WRAPPERS = ["_vertline_dist", "_diagline_dist", "_white_vertline_dist", "_vertline_dist_sequential",
                "_diagline_dist_sequential", "_vertline_dist_missingvalues", "_diagline_dist_missingvalues",
                "_vertline_dist_sequential_missingvalues", "_diagline_dist_sequential_missingvalues"]
+
+
+def nsi_csr(Aadj):
+    """(k, flat_neighbors) as `Network._nsi_betweenness` builds them: out-degrees and the column
+    indices of the non-zero entries, row by row"""
+    Aadj = np.asarray(Aadj)
+    return Aadj.sum(axis=1).astype(int).tolist(), np.nonzero(Aadj)[1].astype(int).tolist()
+
+
+def nsi_contract(N, k, nbr, wlen, slen, targets):
+    """independent evaluation of the contract of `nsiBetwIdx_ok` (Lean: `csrOK`)"""
+    if len(k) < N or wlen < N or slen < N or any(t >= N for t in targets):
+        return False
+    off = [0] * N
+    for i in range(1, N):
+        off[i] = off[i - 1] + k[i - 1]
+    if any(off[i] + k[i] > len(nbr) for i in range(N)) or any(x >= N for x in nbr):
+        return False
+    indeg = [0] * N
+    for i in range(N):
+        for t in range(k[i]):
+            indeg[nbr[off[i] + t]] += 1
+    return all(indeg[l] <= k[l] for l in range(N))
+
+
+def nsi_requests(ctx, rng, nprng, quick):
+    """T6: `_nsi_betweenness` at its own boundary — valid CSR adjacencies (connected, disconnected,
+    with self-loops, empty, complete) and corrupted ones (directed, neighbour entries >= N, degrees
+    overstating / understating a row, arrays one short, targets >= N)"""
+    reqs, model, valid = [], [], []
+    kinds = ["valid", "valid", "valid", "disconnected", "selfloops", "complete", "empty-graph",
+             "directed", "nbr-too-large", "k-overstated", "k-understated", "k-short", "nbr-short",
+             "target-too-large", "w-short", "src-short", "empty-targets", "repeated-targets", "hub"]
+    for c in range(57 if quick else 570):
+        kind = kinds[c % len(kinds)]
+        N = rng.choice([1, 2, 3, 3, 4, 4, 5, 6, 8, 9])
+        dens = rng.choice([0.2, 0.4, 0.7])
+        M = np.triu((nprng.rand(N, N) < dens).astype(int), 1)
+        M = M + M.T
+        if kind == "disconnected" and N > 1:
+            h = N // 2
+            M[:h, h:] = 0
+            M[h:, :h] = 0
+        elif kind == "selfloops":
+            M[np.diag_indices(N)] = (nprng.rand(N) < 0.5).astype(int)
+        elif kind == "complete":
+            M = 1 - np.eye(N, dtype=int)
+        elif kind == "empty-graph":
+            M[:] = 0
+        elif kind == "hub":
+            M[:] = 0
+            M[0, 1:] = 1
+            M[1:, 0] = 1
+        elif kind == "directed":
+            M = (nprng.rand(N, N) < dens).astype(int)
+            np.fill_diagonal(M, 0)
+        k, nbr = nsi_csr(M)
+        wlen = slen = N
+        targets = sorted(rng.sample(range(N), rng.randrange(1, N + 1)))
+        if kind == "nbr-too-large" and nbr:
+            nbr[rng.randrange(len(nbr))] = rng.choice([N, N + 3])
+        elif kind == "k-overstated":
+            k[rng.randrange(N)] += rng.choice([1, 2])
+        elif kind == "k-understated":
+            i = rng.randrange(N)
+            k[i] = max(0, k[i] - 1)
+        elif kind == "k-short":
+            k = k[:N - rng.choice([1, 1, 2])] if N > 1 else []
+        elif kind == "nbr-short" and nbr:
+            nbr = nbr[:-1]
+        elif kind == "target-too-large":
+            targets = targets + [rng.choice([N, N + 2])]
+        elif kind == "w-short":
+            wlen = N - 1
+        elif kind == "src-short":
+            slen = N - 1
+        elif kind == "empty-targets":
+            targets = []
+        elif kind == "repeated-targets":
+            targets = targets + targets[:1] + targets
+        ok = nsi_contract(N, k, nbr, wlen, slen, targets)
+        valid.append(ok)
+        enc = lambda l: ",".join(map(str, l)) or "-"  # noqa
+        reqs.append({"id": f"n{c}", "fn": "nsi_kernel", "args": [N], "cls": kind,
+                     "arrays": [A(np.ones(wlen), "float64"), A(np.array(k, dtype=int), "int16"),
+                                A(np.array(nbr, dtype=int), "int32"), A(np.ones(slen), "int8"),
+                                A(np.array(targets, dtype=int), "int32")]})
+        model.append(f"nsiidx {N} {enc(k)} {enc(nbr)} {wlen} {slen} {enc(targets)}")
+        ctx.case(("nsi", N, tuple(k), tuple(nbr), wlen, slen, tuple(targets)), N > 1,
+                 {"kernel": "_nsi_betweenness", "N": N, "k": k, "flat_neighbors": nbr,
+                  "targets": targets, "kind": kind} if c < 12 else None)
+        ctx.count(f"nsi-kernel:{kind}:{'contract-holds' if ok else 'outside-contract'}")
+    # the public method on real networks: what it hands to the kernel is captured and tested
+    preqs = []
+    for c in range(12 if quick else 80):
+        N = rng.choice([2, 3, 4, 5, 7, 9])
+        directed = c % 6 == 5
+        M = (nprng.rand(N, N) < rng.choice([0.3, 0.6])).astype(int)
+        if not directed:
+            M = np.triu(M, 1)
+            M = M + M.T
+        if c % 4 == 1:
+            M[np.diag_indices(N)] = (nprng.rand(N) < 0.5).astype(int)
+        arrs = [A(M, "int64")]
+        if c % 3 == 0:
+            arrs.append(A(nprng.randint(1, 5, size=N).astype(float), "float64"))
+        sub = lambda: sorted(rng.sample(range(N), rng.randrange(1, N + 1)))  # noqa
+        args = [int(directed), sub() if c % 2 else None, sub() if c % 3 == 1 else None,
+                int(c % 5 != 0), sub() if c % 4 == 2 else None]
+        preqs.append({"id": f"q{c}", "fn": "nsi_public", "args": args, "arrays": arrs,
+                      "cls": "directed" if directed else "undirected", "timeout": 60})
+        ctx.case(("nsi-public", N, M.tobytes().hex(), str(args)), True,
+                 {"entry": "Network.nsi_betweenness", "N": N, "directed": directed} if c < 4 else None)
+        ctx.count("nsi-public:" + ("directed" if directed else "undirected"))
+    return reqs, model, valid, preqs
 
 
 def line_dist_requests(ctx, rng, nprng, quick):
